@@ -92,6 +92,10 @@ class Boom(Exception):
     pass
 
 
+class BoomBase(BaseException):
+    """an exception that does not derive from Exception"""
+
+
 async def _body(name, spec):
     log('start', name)
     dur = spec['dur']
@@ -102,6 +106,13 @@ async def _body(name, spec):
             await asyncio.sleep(dur)
     except asyncio.CancelledError:
         log('cancel', name)
+        if spec.get('cx'):
+            # the job does stop when cancelled, but by raising its own
+            # exception instead of letting the CancelledError through
+            exc = Boom(name + ':interrupted')
+            log('cancel_done', name)
+            log('xraise', name, exc)
+            raise exc
         cdelay = spec.get('cdelay', 0)
         if cdelay:
             try:
@@ -113,9 +124,10 @@ async def _body(name, spec):
         log('cancel_done', name)
         raise
     out = spec.get('out', 'ret')
-    if out in ('raise', 'raise_empty'):
+    if out in ('raise', 'raise_empty', 'raise_base'):
         # 'raise_empty': an exception whose message is the empty string
-        exc = Boom(name) if out == 'raise' else Boom()
+        exc = Boom(name) if out == 'raise' else (
+            Boom() if out == 'raise_empty' else BoomBase(name))
         log('raise', name, exc)
         raise exc
     val = Val(name)
@@ -447,7 +459,7 @@ def run_one(scn, prefix=(), snap=False, drain=True, max_iter=4000):
         ex.built = built
         task_job = {}
         creq = {}
-        peek = bool(scn.get('peek'))
+        peek = scn.get('peek')
 
         def on_iter():
             # record the job of every new `wrapped` task (ground truth for
@@ -465,14 +477,23 @@ def run_one(scn, prefix=(), snap=False, drain=True, max_iter=4000):
                         creq[t] = n
                         log('creq', j.vname, n)
             if peek:
+                # read-only queries; their order rotates with the iteration
+                # so that each of them is, at some iterations, the last one
+                # issued before the scheduler's next step
+                queries = []
                 for name in built.children:
                     sch = built.obj[name]
-                    list(sch.exit_jobs())
-                    sch.stats()
-                    for k in list(sch.jobs)[:2]:
-                        list(sch.successors(k))
-                built.top.list()
-                repr(built.top)
+                    queries.append(lambda sch=sch: list(sch.exit_jobs()))
+                    queries.append(lambda sch=sch: sch.stats())
+                    queries.append(lambda sch=sch: [
+                        list(sch.successors(k)) for k in list(sch.jobs)[:2]])
+                queries.append(built.top.list)
+                queries.append(lambda: repr(built.top))
+                r = {'exits': 1, 'succ': 3, 'list': 0}.get(peek, 0) \
+                    if len(built.children) == 1 else loop.iter
+                r %= len(queries)
+                for q in queries[r:] + queries[:r]:
+                    q()
             if snap:
                 ctx.snaps.append((len(ctx.log), loop.vtime, loop.iter,
                                   _snap(built)))
